@@ -39,10 +39,12 @@ def load_registry(pid):
     shared = os.path.join(VERIF, 'specs', 'shared.py')
     if os.path.exists(shared):
         load_specs(reg, shared)
+    mod = importlib.import_module(f'contracts.{low}')
+    for extra in getattr(mod, 'SPECS', []):
+        load_specs(reg, os.path.join(VERIF, 'specs', f'{extra}.py'))
     sp = os.path.join(VERIF, 'specs', f'{low}.py')
     if os.path.exists(sp):
         load_specs(reg, sp)
-    mod = importlib.import_module(f'contracts.{low}')
     mod.register(reg)
     return reg, mod
 
@@ -241,8 +243,6 @@ def check(pid, tier, seed):
     # 2. failed obligations without a native witness
     for ob, r in failed:
         if any(_fn_match(ob.func, fn) for fn in seen_fn_fail):
-            continue
-        if any(_fn_match(ob.func, k.get('function', '')) and k.get('obligation', '') in ob.name for k, _ in known_hit):
             continue
         path = write_replay('obl_' + ob.name, {'property': pid, 'kind': 'failed-obligation', 'obligation': ob.name,
                                                'clause': ob.detail, 'line': ob.line,
